@@ -50,7 +50,7 @@ pub struct SentMsg { pub bytes: Seq<u8>, pub channels: Seq<OsIpcChannel>, pub re
 pub struct Tls {
     pub ser_channels: Vec<OsIpcChannel>,                    // OS_IPC_CHANNELS_FOR_SERIALIZATION
     pub ser_regions: Vec<OsIpcSharedMemory>,                // OS_IPC_SHARED_MEMORY_REGIONS_FOR_SERIALIZATION
-    pub de_channels: Vec<OsOpaqueIpcChannel>,               // OS_IPC_CHANNELS_FOR_DESERIALIZATION
+    pub de_channels: Vec<Option<OsOpaqueIpcChannel>>,       // OS_IPC_CHANNELS_FOR_DESERIALIZATION (None = already claimed)
     pub de_regions: Vec<Option<OsIpcSharedMemory>>,         // OS_IPC_SHARED_MEMORY_REGIONS_FOR_DESERIALIZATION
     pub ghost sent: Seq<SentMsg>,                            // every message handed to the OS layer, in order
 }
@@ -70,6 +70,7 @@ pub open spec fn ser_step(t0: Tls, t1: Tls) -> bool {
 pub open spec fn de_step(t0: Tls, t1: Tls) -> bool {
     &&& t1.ser_channels@ == t0.ser_channels@ && t1.ser_regions@ == t0.ser_regions@
     &&& t1.de_channels@.len() == t0.de_channels@.len() && t1.de_regions@.len() == t0.de_regions@.len()
+    &&& forall|i: int| 0 <= i < t1.de_channels@.len() && (#[trigger] t1.de_channels@[i]) is Some ==> t0.de_channels@[i] == t1.de_channels@[i]   // attachments are only ever claimed
     &&& t0.sent.is_prefix_of(t1.sent)
 }
 
@@ -95,7 +96,7 @@ pub fn bincode_deserialize_from<T>(data: &[u8], tls: &mut Tls) -> (r: Result<T, 
 pub struct IpcSender<T> { pub os_sender: OsIpcSender, pub phantom: PhantomData<T> }
 pub struct OpaqueIpcMessage {
     pub data: Vec<u8>,
-    pub os_ipc_channels: Vec<OsOpaqueIpcChannel>,
+    pub os_ipc_channels: Vec<Option<OsOpaqueIpcChannel>>,
     pub os_ipc_shared_memory_regions: Vec<Option<OsIpcSharedMemory>>,
 }
 pub struct IpcSharedMemory { pub os_shared_memory: Option<OsIpcSharedMemory> }
@@ -184,4 +185,9 @@ impl From<UnixError> for TryRecvError {
     #[verifier::external_body]
     fn from(e: UnixError) -> (r: TryRecvError)
         ensures r == conv_try(e), (r matches TryRecvError::IpcError(IpcError::Disconnected)) <==> (e is ChannelClosed) { unimplemented!() }
+}
+
+// what OpaqueIpcMessage::new + the platform receive establish and every decoding step keeps: an attachment still in the table is unclaimed
+pub open spec fn unclaimed(t: Tls) -> bool {
+    forall|i: int| 0 <= i < t.de_channels@.len() ==> ((#[trigger] t.de_channels@[i]) matches Some(c) ==> c.fd != -1)
 }
